@@ -170,7 +170,7 @@ def mk_rowmodel(op):
     # per operation: only the inputs it depends on are symbolic (upper bounds; 0 = fixed at 0)
     XM, YM, KM, PM = {
         "sorted_x": (2, 0, 0, 5), "sorted_x_rev": (2, 0, 0, 5), "sorted_xy": (1, 1, 0, 5), "sorted_x_yrev": (1, 1, 0, 5),
-        "filtered": (2, 1, 0, 0), "count_distinct": (2, 0, 2, 0), "columns": (0, 0, 2, 5), "appended": (2, 0, 0, 0),
+        "filtered": (2, 1, 0, 0), "count_distinct": (1, 1, 2, 0), "columns": (0, 0, 2, 5), "appended": (2, 0, 0, 0),
         "transposed": (2, 0, 2, 0), "new_column": (2, 1, 0, 0), "inner_join_natural": (2, 1, 0, 5), "inner_join_keys": (2, 1, 0, 5),
         "cross_join": (1, 0, 0, 5),
     }[op]
@@ -203,6 +203,15 @@ def mk_rowmodel(op):
             # cells go into typed numpy arrays at once: the input tuple is ONE mixed-radix symbolic integer, realised up front (CrossHair
             # forks on its value; the bounded space is exhausted with ~2 paths per value instead of ~150 for eight separate integers)
             code = deep_realize(code)
+        from crosshair.tracers import NoTracing as _NT
+        import contextlib as _cl
+
+        with (_cl.nullcontext() if W.PLAIN else _NT()):  # everything below is concrete: run it untraced (W.concrete)
+            return body(code)
+
+    def body(code):
+        from cogent3 import make_table
+
         x0, x1, x2, y0, y1, y2, k, perm = decode(code)
         H = ["id", "x", "y"]
         if op == "transposed":
@@ -233,8 +242,15 @@ def mk_rowmodel(op):
         elif op == "count_distinct":
             col = H[k]
             vals = [r[k] for r in rows]
-            cu = t.count_unique(col)
-            ok = {key: cu[key] for key in cu} == {v: vals.count(v) for v in set(vals)} and set(t.distinct_values(col)) == set(vals)
+            for indexed in (False, True):
+                # an index column (index_name) must not leak into the answers about other columns
+                tt = make_table(header=H, data=[list(r) for r in rows], index_name="id") if indexed else t
+                cu = tt.count_unique(col)
+                ok = ok and {key: cu[key] for key in cu} == {v: vals.count(v) for v in set(vals)} and set(tt.distinct_values(col)) == set(vals)
+                pairs = tt.distinct_values(["x", "y"])
+                ok = ok and {tuple(p) for p in pairs} == {(r[1], r[2]) for r in rows}
+                cu2 = tt.count_unique(["x", "y"])
+                ok = ok and {tuple(key): cu2[key] for key in cu2} == {(r[1], r[2]): [(q[1], q[2]) for q in rows].count((r[1], r[2])) for r in rows}
         elif op == "columns":
             c1, c2 = H[k], H[_PERMS3[perm][0]]
             if c1 != c2:
